@@ -20,7 +20,6 @@ import (
 	"errors"
 	"fmt"
 	"io"
-	"maps"
 	"math"
 	"net/http"
 	"net/textproto"
@@ -381,7 +380,16 @@ func grpcAddResponseMeta(contentTypePrefix string, meta responseMeta, headers ht
 }
 
 func grpcWriteEndToTrailers(respEnd *responseEnd, trailers http.Header) {
-	maps.Copy(trailers, respEnd.trailers)
+	for key, vals := range respEnd.trailers {
+		switch textproto.CanonicalMIMEHeaderKey(key) {
+		case "Content-Length", "Transfer-Encoding", "Trailer":
+			// Not valid as trailers (net/http drops them as well). In a
+			// trailers-only response the metadata is written to the header
+			// block, where these would frame a body that is not there.
+			continue
+		}
+		trailers[key] = vals
+	}
 	if respEnd.err == nil {
 		trailers.Set("Grpc-Status", "0")
 		trailers.Set("Grpc-Message", "")
